@@ -187,12 +187,20 @@ def check_case(case, ctx):
         if r:
             ctx.violation(r[0], r[1], case)
             return
-        got = c2p.string_token_to_bytes(c2p.Token("STRING", lit))
+        try:
+            got = c2p.string_token_to_bytes(c2p.Token("STRING", lit))
+        except Exception as e:  # noqa: BLE001
+            ctx.violation("escape.value", f"literal {lit!r} (documented value {want!r}) cannot be decoded: {type(e).__name__}: {e}", case)
+            return
         if got != want:
             ctx.violation("escape.value", f"literal {lit!r} decodes to {got!r}, documented value {want!r}", case)
             return
         if cx == "transform" and case.get("as_dict"):
-            d = c2p.C2Profile.from_text(CONTEXTS[cx][0].replace("%s", lit)).as_dict()
+            try:
+                d = c2p.C2Profile.from_text(CONTEXTS[cx][0].replace("%s", lit)).as_dict()
+            except Exception as e:  # noqa: BLE001
+                ctx.violation("escape.value", f"as_dict() for literal {lit!r}: {type(e).__name__}: {e}", case)
+                return
             if d.get("http-get.client.metadata") != [("prepend", want), ("append", want), "print"]:
                 ctx.violation("escape.value", f"as_dict() gives {d.get('http-get.client.metadata')!r} for literal {lit!r}", case)
                 return
@@ -264,6 +272,12 @@ def run_shard(shard, ctx):
             cases.append(("xHH", "\\x%02x" % v, bytes([v])))
             cases.append(("xHH-upper", "\\x%02X" % v, bytes([v])))
             cases.append(("u00HH", "\\u00%02x" % v, bytes([v])))
+            h = "%02x" % v
+            if h[0].isalpha() or h[1].isalpha():
+                # hex digits are case-insensitive one by one: \xaB, \xAb, \u00Dc
+                for mixed in {h[0].upper() + h[1], h[0] + h[1].upper()} - {h, h.upper()}:
+                    cases.append(("xHH-mixed", "\\x" + mixed, bytes([v])))
+                    cases.append(("u00HH-mixed", "\\u00" + mixed, bytes([v])))
         for e, b in (("\\n", b"\n"), ("\\r", b"\r"), ("\\t", b"\t"), ("\\\\", b"\\"), ('\\"', b'"'), ("\\'", b"'")):
             cases.append(("simple", e, b))
         for raw in ("\n", "\t", "'", ";", "{", "}", "#", "\u00e9", "\uffc2", "x", "\\\\x41"):
